@@ -98,6 +98,23 @@ func typeTerm(v ssa.Value, recv *ssa.Parameter, depth int) string {
 				return "Tuple(...)"
 			}
 		}
+		// an unexported method of the receiver that returns a type: its (single) returned term
+		if ci.static != nil && ci.name != "impliedType" && isNamed(x.Type(), ctyPath, "Type") && len(x.Call.Args) == 1 && recv != nil &&
+			(x.Call.Args[0] == ssa.Value(recv) || isSpillOf(x.Call.Args[0], recv)) && ci.static.Object() != nil && !ci.static.Object().Exported() && len(ci.static.Blocks) > 0 && depth < 6 {
+			term := ""
+			for _, hb := range ci.static.Blocks {
+				if hr, ok := hb.Instrs[len(hb.Instrs)-1].(*ssa.Return); ok && len(hr.Results) == 1 {
+					t := typeTerm(hr.Results[0], ci.static.Params[0], depth+1)
+					if term != "" && term != t {
+						return "?"
+					}
+					term = t
+				}
+			}
+			if term != "" {
+				return term
+			}
+		}
 		if ci.name == "impliedType" {
 			if x.Call.IsInvoke() {
 				// s.Nested.impliedType()
@@ -394,13 +411,32 @@ func c08UnknownBody(c *Ctx) {
 		n++
 		c.Fn(FuncName(fn))
 		tests := false
-		for _, b := range fn.Blocks {
-			for _, ins := range b.Instrs {
-				if ta, ok := ins.(*ssa.TypeAssert); ok && isNamed(ta.AssertedType, modPath+"/hcldec", "UnknownBody") {
-					tests = true
+		var hasTest func(f *ssa.Function, d int) bool
+		hasTest = func(f *ssa.Function, d int) bool {
+			for _, b := range f.Blocks {
+				for _, ins := range b.Instrs {
+					if ta, ok := ins.(*ssa.TypeAssert); ok && isNamed(ta.AssertedType, modPath+"/hcldec", "UnknownBody") {
+						return true
+					}
+					// a helper of the package that is handed the body
+					if call, ok := ins.(*ssa.Call); ok && d < 2 {
+						if cal := call.Call.StaticCallee(); cal != nil && cal != dec && fnPkg(cal) != nil && fnPkg(cal).Path() == modPath+"/hcldec" && len(cal.Blocks) > 0 {
+							takesBody := false
+							for _, a := range call.Call.Args {
+								if isNamed(a.Type(), modPath, "Body") {
+									takesBody = true
+								}
+							}
+							if takesBody && hasTest(cal, d+1) {
+								return true
+							}
+						}
+					}
 				}
 			}
+			return false
 		}
+		tests = hasTest(fn, 0)
 		c.Check(tests, "unknownbody", FuncName(fn)+":child[UnknownBody]", pos, "unknown child bodies yield an unknown value",
 			"the spec decodes child block bodies but has no UnknownBody test: with an unknown for_each it returns a known value although zero or many blocks are possible")
 	}
